@@ -1,6 +1,7 @@
 package props
 
 import (
+	"errors"
 	"fmt"
 	"sort"
 	"strings"
@@ -81,6 +82,7 @@ func c01Prods(extra bool) []enum.Prod {
 
 // implOutcome is what one run of the implementation produced, in model terms.
 type implOutcome struct {
+	Err     error
 	Val     V
 	IsErr   bool
 	Thrown  bool // error carries a lisp value (not a Go error)
@@ -92,6 +94,7 @@ type implOutcome struct {
 }
 
 type evalRig struct {
+	ntTraceOnly bool
 	base   types.EnvType
 	tracer *lx.Tracer
 	mbase  *model.Scope
@@ -127,6 +130,7 @@ func (rg *evalRig) runImpl(ast types.MalType, polls int) (out implOutcome, scope
 	}
 	if err != nil {
 		out.IsErr = true
+		out.Err = err
 		out.ErrMsg = err.Error()
 		if ev, ok := lx.ErrValue(err); ok {
 			if _, isGo := ev.(error); !isGo {
@@ -218,7 +222,7 @@ func (rg *evalRig) compareWithModel(prog V, names []string, r *vf.Rec, viaText b
 		r.Note("skipped: impl out of fuel")
 		return
 	}
-	if len(in.Trace) > 0 || len(msc.OwnNames()) > 0 {
+	if len(in.Trace) > 0 || (!rg.ntTraceOnly && len(msc.OwnNames()) > 0) {
 		r.NT()
 	}
 	hs := headSet(prog)
@@ -260,6 +264,16 @@ func (rg *evalRig) compareWithModel(prog V, names []string, r *vf.Rec, viaText b
 		if merr.Class == model.EGo && out.Thrown {
 			bad("error kind differs", fmt.Sprintf("expected %s, got %s", exp(), got()))
 			return
+		}
+		if merr.Class == model.EGo && merr.Sentinel != "" {
+			want := ErrBoom
+			if merr.Sentinel == "pan" {
+				want = ErrPan
+			}
+			if !errors.Is(out.Err, want) {
+				bad("Go error no longer reachable with errors.Is", fmt.Sprintf("expected errors.Is(err, %v); got %s", want, got()))
+				return
+			}
 		}
 		if mThrown && !model.Identical(merr.Payload, out.Payload) {
 			bad("thrown value differs", fmt.Sprintf("expected %s, got %s", exp(), got()))
